@@ -169,7 +169,42 @@ def merged_orders(ctx, r):
         st.close()
 
 
+def edge_between_prunes(ctx):
+    """a pruned id's edges no longer block — whenever they were recorded: a first prune (the log now holds a tombstone), *then* an edge A → P, then P
+    is finished and pruned: A's dependencies must not name P any more, before and after a compact"""
+    st = cmdrun.Store(ctx.ergo, ctx.go)
+    trace = []
+    try:
+        def ex(argv, stdin=None):
+            res = st.exec(argv, stdin); trace.append({"argv": argv, "stdin": None if stdin is None else stdin.decode(), "exit": res["exit"]}); return res
+        new = lambda title: json.loads(ex(["--json", "new", "task"], json.dumps({"title": title}).encode())["stdout"])["id"]
+        first = new("finished early")
+        ex(["--json", "set", first], b'{"state":"canceled"}')
+        ex(["--json", "--agent", "p", "prune", "--yes"])
+        a, p_, q = new("A waits"), new("P will be pruned"), new("Q stays")
+        ex(["--json", "sequence", p_, a]); ex(["--json", "sequence", q, a])
+        ex(["--json", "set", p_], b'{"state":"canceled"}')
+        ex(["--json", "--agent", "p", "prune", "--yes"])
+        for phase in ("after the second prune", "after compact"):
+            g = st.graph()
+            ctx.count(1, key=("edge-between-prunes", phase))
+            if "err" in g:
+                ctx.violation("C09 store unreadable", g["err"][:200], {"trace": trace}); return
+            sh = json.loads(st.exec(["--json", "show", a])["stdout"])
+            deps = sh.get("deps") or []
+            bad = oracles.inv07(g["graph"])
+            if p_ in deps or [e for e in g["graph"]["deps"] if p_ in e] or bad:
+                ctx.violation("C09 a pruned id's edge still there (recorded between two prunes)", "%s: show %s lists deps %s; pruned id %s; graph edges %s %s" %
+                              (phase, a, deps, p_, [e for e in g["graph"]["deps"] if p_ in e], bad[:1] if bad else ""), {"trace": trace}); return
+            if q not in deps:
+                ctx.violation("C09 prune removed an edge of a live item", "%s: show %s lists deps %s, the live prerequisite %s is missing" % (phase, a, deps, q), {"trace": trace}); return
+            ex(["--json", "compact"])
+    finally:
+        st.close()
+
+
 def run(ctx):
+    edge_between_prunes(ctx)
     framework.check_facts(ctx, ctx.facts, ["lock_sites", "writer_calls", "with_lock"])
     import os
     os.environ["GOGC"] = "1"      # stress the Go runtime: collections (and finalizers) inside every lock section
